@@ -396,7 +396,7 @@ func (e *c12Env) sessionMux(r int) {
 	})
 }
 
-var c12ImpostorModes = []string{"certB", "clone", "stapled", "sysca", "plain", "control", "noannounce"}
+var c12ImpostorModes = []string{"certB", "clone", "stapled", "sysca", "plain", "control", "noannounce", "noannounce-plain"}
 
 func (e *c12Env) sessionImpostor(r int, proto, mode string) {
 	extra := fmt.Sprintf("r=%d", r)
@@ -415,19 +415,19 @@ func (e *c12Env) sessionImpostor(r int, proto, mode string) {
 	c := e.client(cmd, wire, proto == "grpcmux")
 	_, err := c12Use(c)
 	c.Kill()
-	if mode == "noannounce" {
+	if mode == "noannounce" || mode == "noannounce-plain" {
 		// no certificate came back at all: outside the model's world (it has an announced certificate);
 		// the property still demands that a peer with an unrelated certificate is not talked to
 		if e.filter == "" {
 			pred := "ok"
 			if err == nil {
-				pred = "FAIL:cli-" + path + "-noannounce-was-served"
+				pred = "FAIL:cli-" + path + "-" + mode + "-was-served"
 			}
 			impl := "refused"
 			if err == nil {
 				impl = "served"
 			}
-			e.o.emit(fmt.Sprintf("!C12.cli path=%s cls=noannounce %s", path, extra), impl, pred)
+			e.o.emit(fmt.Sprintf("!C12.cli path=%s cls=%s %s", path, mode, extra), impl, pred)
 		}
 		return
 	}
